@@ -38,8 +38,8 @@ def factorize_arrow_arr(
 
     indices = arr.indices
     if indices.null_count:
-        # nulls get the null code rather than a float NaN
-        indices = indices.fill_null(-1)
+        # nulls get the null code rather than a float NaN (the indices can be unsigned)
+        indices = indices.cast(pa.int64()).fill_null(-1)
     codes = indices.to_numpy(zero_copy_only=False)
     labels = pd.Index(arr.dictionary.to_pandas(types_mapper=pd.ArrowDtype), name=name)
 
